@@ -186,7 +186,7 @@ func init() {
 		Rule: "(a) documented shapes: for each of the 70 worked examples of the attachment-point documentation (snapshot of gendst/data/positions.go), every subset of <=2 (quick) / all subsets (thorough) of the example's points x kind {block, line, newline}, " +
 			"placed directly on the documented node's decoration fields of a tree parsed from the comment-free text: the token+comment sequence of the print must equal that of the documentation text with exactly those comments kept (block), " +
 			"or each comment exactly once with the token stream unchanged (line, newline); (b) every node instance of the corpus x every point singly and all points at once (block comments): exactly once, token stream unchanged, " +
-			"Start directly before the node's first token, End directly after its last, interior points inside and in declaration order; (c) helper laws for every node type: dstutil.Decorations lists exactly the reflection-derived points in render order, Decorations() aliases the node's storage; " +
+			"Start directly before the node's first token, End directly after its last, interior points inside and in declaration order; (c) every top-level declaration of 21 object-bearing sources replaced by its Clone or removed, restored with Extras: same output as without Extras (each comment once); (d) helper laws for every node type: dstutil.Decorations lists exactly the reflection-derived points in render order, Decorations() aliases the node's storage; " +
 			"state = (example|instance, point set, kind); non-trivial = at least one decoration placed",
 		Assumptions: []string{"the worked examples in decorations-types-generated.go (generated from gendst/data/positions.go, snapshotted) are the documentation of the attachment points", "',' and ';' are ignored when locating comments: go/printer emits them without positions"},
 		Units: func(tier string) []string {
@@ -198,7 +198,7 @@ func init() {
 			for _, t := range gen.Templates() {
 				u = append(u, "instance/"+t.Name)
 			}
-			return append(u, "helpers")
+			return append(u, "helpers", "extras-clone")
 		},
 		Run: runC04,
 		Check: func(c core.Case) core.Outcome {
@@ -264,10 +264,104 @@ func runC04(ctx *core.Ctx, unit int) {
 		}
 		return
 	}
-	cs := c04Case{Mode: "helpers"}
-	ctx.CountState(true)
-	ctx.Eval(cs, c04Check(cs))
+	if unit == len(ts) {
+		cs := c04Case{Mode: "helpers"}
+		ctx.CountState(true)
+		ctx.Eval(cs, c04Check(cs))
+		return
+	}
+	// every top-level declaration of every object-bearing source replaced by its Clone (identifiers
+	// elsewhere keep pointing at the original through Obj.Decl), restored with Extras: every comment
+	// still exactly once, output identical to the unedited print
+	for _, src := range c04ExtrasSources() {
+		f, err := decorator.Parse(src.Src)
+		if err != nil {
+			panic(err)
+		}
+		for di := range f.Decls {
+			for _, remove := range []bool{false, true} {
+				cs := c04Case{Mode: "extras-clone", Template: src.Name, Node: di, What: fmt.Sprint("remove=", remove)}
+				if remove {
+					cs.Point = 1
+				}
+				ctx.CountState(true)
+				ctx.R.Transitions++
+				ctx.Eval(cs, c04Check(cs))
+			}
+		}
+	}
 }
+
+func c04ExtrasSources() []gen.Template {
+	var out []gen.Template
+	for _, t := range c18Templates {
+		out = append(out, gen.Template{Name: "c18:" + t.Name, Src: t.Src})
+	}
+	for _, n := range []string{"comments", "comments2", "methods", "funcs", "typeparams", "generics"} {
+		if t, ok := gen.Find(gen.Templates(), n); ok {
+			out = append(out, t)
+		}
+	}
+	return out
+}
+
+// c04ExtrasClone: declaration cs.Node of the source is replaced by its clone (or removed), every
+// declaration carries comments, and the file is restored with Extras.
+func c04ExtrasClone(cs c04Case, fail func(string, string, ...interface{}) core.Outcome) core.Outcome {
+	var src string
+	for _, t := range c04ExtrasSources() {
+		if t.Name == cs.Template {
+			src = t.Src
+		}
+	}
+	build := func(edit bool) (*dst.File, []string) {
+		f, err := decorator.Parse(src)
+		if err != nil {
+			panic(err)
+		}
+		var labels []string
+		for i, d := range f.Decls {
+			l := fmt.Sprintf("// decl %d", i)
+			d.Decorations().Start.Prepend(l)
+			d.Decorations().End.Append(fmt.Sprintf("/*end %d*/", i))
+			labels = append(labels, stripWS(l), fmt.Sprintf("/*end%d*/", i))
+		}
+		if edit {
+			if cs.Point == 1 {
+				f.Decls = append(f.Decls[:cs.Node:cs.Node], f.Decls[cs.Node+1:]...)
+			} else {
+				f.Decls[cs.Node] = dst.Clone(f.Decls[cs.Node]).(dst.Decl)
+			}
+		}
+		return f, labels
+	}
+	print := func(f *dst.File, extras bool) (string, error) {
+		r := decorator.NewRestorer()
+		r.Extras = extras
+		var buf bytes.Buffer
+		err := r.Fprint(&buf, f)
+		return buf.String(), err
+	}
+	ref, _ := build(true)
+	want, err := print(ref, false)
+	if err != nil {
+		return fail("engine:extras-reference", "%v", err)
+	}
+	f, _ := build(true)
+	var got string
+	if p := guard(func() { got, err = print(f, true) }); p != "" {
+		return fail("extras-panic", "restoring with Extras panicked: %s", p)
+	}
+	if err != nil {
+		return fail("extras-error", "%v", err)
+	}
+	if got != want {
+		return fail("extras-comment-rendering", "with Extras the print differs from the print without Extras (decorations of nodes that are only reachable through object links must not be rendered)\n%s", diffDesc(want, got))
+	}
+	return core.Outcome{OK: true}
+}
+
+func init() { _ = c04ExtrasClone }
 
 func c04Check(cs c04Case) core.Outcome {
 	fail := func(key, f string, a ...interface{}) core.Outcome {
@@ -281,6 +375,8 @@ func c04Check(cs c04Case) core.Outcome {
 		return c04Instance(cs, fail)
 	case "helpers":
 		return c04Helpers(fail)
+	case "extras-clone":
+		return c04ExtrasClone(cs, fail)
 	}
 	return fail("engine", "unknown mode")
 }
